@@ -694,8 +694,10 @@ class IndexedOperand(Operand):
         self.operand_string = operand_string
         if operand_string.startswith("#"):
             raise OperandTypeError("[{}] is not an indexed value".format(operand_string))
+        # a pointer register on its own is the zero offset form (LDB X is LDB ,X)
+        value_string = "," + operand_string if operand_string in ["X", "Y", "U", "S"] else operand_string
         try:
-            self.value = Value.create_from_str(self.operand_string, self.instruction)
+            self.value = Value.create_from_str(value_string, self.instruction)
         except ValueTypeError:
             raise OperandTypeError("[{}] is not an indexed value".format(operand_string))
         if not self.value.is_leftright():
